@@ -526,6 +526,15 @@ pub fn variations(group: &Group, reference: &ExecRecord) -> Vec<Plan> {
                     } else {
                         (None, rng.below(reference.jobs.len()))
                     };
+                    if rng.chance(1, 6) {
+                        // the final step fails instead: moving the font out of the IR directory, or writing it
+                        p.options.emit_ir = rng.chance(1, 2);
+                        p.options.output_in_ir_dir = false;
+                        let errno = *rng.pick(&[28i64, 18, 13, 5, 30]);
+                        p.faults.push(Fault { kind: "io-step-err".into(), target: None, nth: 0, arg: errno });
+                        out.push(p);
+                        continue;
+                    }
                     p.faults.push(Fault { kind: kind.into(), target, nth, arg: 0 });
                     if rng.chance(1, 4) {
                         // a second failure somewhere else
